@@ -80,7 +80,8 @@ claim("C05",
       "lowered to coroutines and interleaved by a scheduler whose choices are solver variables: 3 producers (4 thorough) with symbolic sizes vs symbolic "
       "byte/count limits, sync/async/empty-checkpoint patterns, batching window on/off, solver-chosen successor at blocking points, one solver-chosen "
       "preemption at any shared-state operation, and a failing API call: delivered sequence == hand-over sequence, token chain, limits, every sync "
-      "caller released (success after apply, or the failure). All paths exhausted per lemma.",
+      "caller released (success after apply, or the failure); an update still queued when its parent context's completion is handed over is delivered "
+      "before its caller is released (C05_orphan, shared with C03). All paths exhausted per lemma.",
       "queue/Event/Lock/clock/service client are stubs (evidence assumptions); preemption granularity = operations on shared state; context bound K=1 (quick); "
       "producers beyond 3-4, K>=2 and real OS scheduling are outside the claim",
       "CrossHair symbolic execution (z3) of coroutine-lowered real batcher code under a solver-driven context-bounded scheduler",
